@@ -85,6 +85,7 @@ func init() {
 			{Rule: "ERR-1", Filter: and(lib, not(constructHas("os.", "io/fs.")))},
 			{Rule: "ERR-2", Floors: map[string]int{"sink": 4}},
 			{Rule: "ERR-3", Floors: map[string]int{"scan": 3}},
+			{Rule: "NIL-1", Filter: role("handover-err"), Floors: map[string]int{"handover-err": 6}},
 			{Rule: "EFF-8", Filter: role("writer")},
 		},
 		Decides:    "every error value produced on a library path (every write to the caller's io.Writer, every bufio.Scanner, every stage error channel) is propagated unchanged or wrapped with %w up to the API result — none is dropped, merely tested, or replaced; every Scan loop is followed by Err() on the same scanner; the CLI hands os.Stdout/color.Output to the library unwrapped.",
@@ -97,6 +98,8 @@ func init() {
 			{Rule: "CONC-3", Floors: map[string]int{"operation": 4, "stage": 5, "collector": 1}},
 			{Rule: "CONC-4", Floors: map[string]int{"worker": 3, "access": 3}},
 			{Rule: "ERR-1", Filter: and(lib, pipelineFuncs)},
+			{Rule: "NIL-1", Filter: role("handover-err")},
+			{Rule: "CONC-5", Filter: role("release"), Floors: map[string]int{"release": 1}},
 		},
 		Decides:    "no channel operation of the massive mode can block forever once the operation's context is cancelled (every send/select/receive has a ctx.Done() alternative or is a single send into a buffered channel); the context every stage waits on is the one derived and cancelled (deferred) by the operation; the error collector waits on the errgroup's context so the first error releases the rest; channels are closed once by their owner after its workers were joined; fields shared by concurrently running workers are written only under the owner's mutex.",
 		NotDecided: "'bounded time' as a number; readers/writers/callbacks supplied by the user that block forever; fairness; that no goroutine remains at the very instant of return (they terminate after cancel, asynchronously); races on objects the user supplies.",
@@ -109,7 +112,7 @@ func init() {
 			{Rule: "EFF-7"},
 			{Rule: "PAIR-7"},
 			{Rule: "CONC-2"},
-			{Rule: "CONC-3", Filter: role("collector")},
+			{Rule: "CONC-3", Filter: role("collector"), Floors: map[string]int{"collector": 1}},
 			{Rule: "ERR-3"},
 		},
 		Decides:    "no nil *Node crosses a channel, iterator or return hand-over to a consumer that dereferences it (producers prove node≠nil or err≠nil; consumers test err first); massive mode always comes with a non-nil context and the nil pipeline iterator is never selected; every index/slice the compiler cannot prove, every non-comma-ok assertion and integer division is guarded or covered by a named invariant; no explicit panic, os.Exit or log.Fatal in the library; no double close / send on closed channel; over-long lines surface as the scanner's error.",
@@ -120,11 +123,12 @@ func init() {
 			{Rule: "CONC-5", Floors: map[string]int{"critical": 1}},
 			{Rule: "CONC-6"},
 			{Rule: "CONC-4", Filter: role("access", "init")},
-			{Rule: "NIL-1", Filter: role("handover-chan")},
+			{Rule: "NIL-1", Filter: role("handover-chan", "handover-err")},
 			{Rule: "ERR-1", Filter: and(lib, pipelineFuncs)},
 			{Rule: "TAB-2", Filter: role("split", "table")},
 			{Rule: "SPLIT-1", Floors: map[string]int{"split": 2}},
 			{Rule: "SIB-6", Floors: map[string]int{"reuse": 3}},
+			{Rule: "EFF-4", Filter: and(role("gate"), funcHas("treePipeline"))},
 			{Rule: "SIB-5", Filter: funcHas("Pipeline")},
 			{Rule: "PAIR-3", Filter: funcHas("Pipeline")},
 		},
@@ -145,6 +149,7 @@ func init() {
 		Uses: []Use{
 			{Rule: "EFF-1", Filter: role("entry-readonly", "cli-readonly")},
 			{Rule: "EFF-3", Floors: map[string]int{"gate": 2, "cli-gate": 1}},
+			{Rule: "EFF-4", Filter: role("grow-all")},
 			{Rule: "EFF-2"},
 			{Rule: "TAB-6", Filter: and(func(o Ob) bool { return o.Role == "factory" || o.Role == "factory-args" || o.Role == "grower-flag" }, cfgIs("D")), Floors: map[string]int{"factory": 2, "grower-flag": 1}},
 			{Rule: "TAB-3", Filter: and(role("pred", "users", "ext"), cfgIs("D"))},
@@ -175,6 +180,7 @@ func init() {
 			{Rule: "EFF-5", Filter: funcHas("Verifier")},
 			{Rule: "ERR-1", Filter: funcHas("Verifier", "verify", "sendErr", "handlePipelineErr")},
 			{Rule: "TAB-4", Floors: map[string]int{"verdict": 1, "sets": 1}},
+			{Rule: "NIL-1", Filter: and(role("handover-err"), funcHas("erifier"))},
 			{Rule: "CONC-4", Filter: and(role("access"), funcHas("erifier"))},
 			{Rule: "SIB-4", Filter: funcHas("fillDirsMarkdown")},
 			{Rule: "GLOB-3", Filter: and(cfgIs("D"), constructHas("setPath"))},
@@ -236,6 +242,7 @@ func init() {
 			{Rule: "GLOB-3", Filter: cfgIs("D")},
 			{Rule: "GLOB-1", Filter: and(role("sink", "global-mutable", "summary"), cfgIs("D"))},
 			{Rule: "EFF-4", Filter: and(role("gate", "encode"), funcHas("rogrammably", "FromRoot"))},
+			{Rule: "ERR-1", Filter: and(scope("lib"), funcHas("rogrammably", "FromRoot"))},
 		},
 		Decides:    "every From-Root entry point (and the iterator closures) validates the root first with the documented sentinels and does nothing else before; deprecated aliases are identical to their replacements; Add looks the name up before inserting and links both ways one level deeper; the fused From-Root printer writes the same row term as the grow-then-print path and clears the node cache first on every route; From-Root routes enable validation and force the default encoding like the Markdown routes; no mutable package-level state reaches a decision or output.",
 		NotDecided: "equality of the two API families' outputs as values for every tree and option combination (it follows from shared code only as far as that code is deterministic in the tree).",
@@ -262,6 +269,7 @@ func init() {
 			{Rule: "C01-SEL", Filter: and(role("path"), cfgIs("D"))},
 			{Rule: "GLOB-3", Filter: cfgIs("D")},
 			{Rule: "GLOB-1", Filter: and(role("sink"), cfgIs("D"), funcHas("alk"))},
+			{Rule: "SIB-5", Filter: and(cfgIs("D"), funcHas("rootGeneratorSimple"))},
 			{Rule: "EFF-4", Filter: and(func(o Ob) bool { return o.Role == "encode" }, funcHas("Walk"))},
 			{Rule: "ERR-1", Filter: and(scope("lib"), funcHas("alk"))},
 		},
@@ -299,7 +307,7 @@ func init() {
 			{Rule: "ERR-1", Filter: cfgIs("W")},
 			{Rule: "ERR-3", Filter: cfgIs("W")},
 			{Rule: "PAIR-3", Filter: cfgIs("W")},
-			{Rule: "SIB-5", Filter: cfgIs("W")},
+			{Rule: "SIB-5", Filter: or(cfgIs("W"), funcHas("rootGeneratorSimple).generateIter"))},
 			{Rule: "EFF-4", Filter: and(cfgIs("W"), role("validate-call"))},
 			{Rule: "NIL-1", Filter: cfgIs("W")},
 			{Rule: "PAIR-6", Filter: cfgIs("W")},
